@@ -62,6 +62,7 @@ type c04Op struct {
 }
 
 type c04Program struct {
+	Minimal  bool      `json:"minimalLines,omitempty"` // lock/combine only: no time, caller or context, so that lines can be very short
 	Topology string    `json:"topology"`
 	BufSize  int       `json:"bufSize"`
 	Procs    int       `json:"gomaxprocs"`
@@ -157,6 +158,9 @@ func genC04Program(t *rapid.T) *c04Program {
 		BufSize:  rapid.SampledFrom([]int{64, 128, 256, 1024, 4096}).Draw(t, "bufSize"),
 		Procs:    rapid.SampledFrom([]int{1, 2, 4, 16}).Draw(t, "gomaxprocs"),
 	}
+	if p.Topology == "lock" || p.Topology == "combine" {
+		p.Minimal = rapid.IntRange(0, 2).Draw(t, "minimalLines") == 0
+	}
 	ng := rapid.IntRange(2, 8).Draw(t, "goroutines")
 	for g := 0; g < ng; g++ {
 		n := rapid.IntRange(1, 30).Draw(t, "ops")
@@ -190,6 +194,9 @@ func c04Run(t interface{ Fatalf(string, ...any) }, p *c04Program) (alternations 
 	// (the layout time encoder and the short caller encoder take nested pooled buffers while the line is being built)
 	jcfg := zapcore.EncoderConfig{TimeKey: "t", NameKey: "n", LevelKey: "l", CallerKey: "c", MessageKey: "m", EncodeLevel: zapcore.CapitalLevelEncoder,
 		EncodeTime: zapcore.RFC3339NanoTimeEncoder, EncodeCaller: zapcore.ShortCallerEncoder}
+	if p.Minimal {
+		jcfg = zapcore.EncoderConfig{NameKey: "n", LevelKey: "l", MessageKey: "m", EncodeLevel: zapcore.CapitalLevelEncoder}
+	}
 	var streams []*c04Stream
 	var core, altCore zapcore.Core
 	var closers []func()
@@ -246,6 +253,9 @@ func c04Run(t interface{ Fatalf(string, ...any) }, p *c04Program) (alternations 
 	lg := zap.New(core, zap.AddCaller())
 	// the shared context carries a reflected value: every derived encoder starts from one that has used its reflection buffer
 	shared := lg.With(zap.String("shared", "ctx"), zap.Reflect("rctx", map[string]int{"r": 1}))
+	if p.Minimal {
+		shared = lg // no shared context either: the shortest possible lines
+	}
 	lgAlt, sharedAlt := lg, shared
 	if altCore != nil {
 		lgAlt = zap.New(altCore, zap.AddCaller())
@@ -268,6 +278,9 @@ func c04Run(t interface{ Fatalf(string, ...any) }, p *c04Program) (alternations 
 				lg, shared = lgAlt, sharedAlt
 			}
 			mine := shared.Named(fmt.Sprintf("g%d", g)).With(zap.Int("g", g))
+			if p.Minimal {
+				mine = shared.Named(fmt.Sprintf("g%d", g))
+			}
 			sg := mine.Sugar()
 			std := zap.NewStdLog(mine)
 			zw := &zapio.Writer{Log: mine, Level: zapcore.WarnLevel}
